@@ -213,6 +213,9 @@ func (rc *runCtx) runChild(ps partSpec, shard, shards, only int, tier string) *c
 		co.exitErr = err.Error()
 	}
 	if b, e := os.ReadFile(serr); e == nil {
+		if ps.Flavour == "ft" {
+			b = deframe(b)
+		}
 		co.stderr = string(b)
 	}
 	if b, e := os.ReadFile(out); e == nil {
@@ -307,6 +310,24 @@ func scanSanitizers(co *childOut) (reps []sanReport, harnessOnly []string) {
 		}
 	}
 	return
+}
+
+// deframe strips the playback framing ("\x00\x00PB" + 8-byte time + 4-byte length) that the faketime runtime
+// puts around every write to stdout/stderr.
+func deframe(b []byte) []byte {
+	var out []byte
+	for i := 0; i < len(b); {
+		if i+16 <= len(b) && b[i] == 0 && b[i+1] == 0 && b[i+2] == 'P' && b[i+3] == 'B' {
+			n := int(b[i+12])<<24 | int(b[i+13])<<16 | int(b[i+14])<<8 | int(b[i+15])
+			end := min(i+16+n, len(b))
+			out = append(out, b[i+16:end]...)
+			i = end
+			continue
+		}
+		out = append(out, b[i])
+		i++
+	}
+	return out
 }
 
 func tail(s string, n int) string {
